@@ -60,20 +60,6 @@ theorem mem_delOffs {rows : List PRow} {j i : Nat} :
           rw [this, List.getElem?_cons_succ] at hr
           exact hr
 
-theorem tagRows_getElem {fid j : Nat} {rows : List PRow} {x : TRow} (h : x ∈ tagRows fid j rows) :
-    rows[x.1.2 - j]? = some x.2 ∧ j ≤ x.1.2 := by
-  induction rows generalizing j with
-  | nil => simp [tagRows] at h
-  | cons a t ih =>
-    simp only [tagRows, List.mem_cons] at h
-    rcases h with rfl | h
-    · simp
-    · obtain ⟨h1, h2⟩ := ih h
-      refine ⟨?_, by omega⟩
-      have : x.1.2 - j = (x.1.2 - (j + 1)) + 1 := by omega
-      rw [this, List.getElem?_cons_succ]
-      exact h1
-
 /-- the pairs `RowIdIndex::new` keeps for one fragment are its visible rows with their addresses -/
 theorem activePairs_tag (fid base : Nat) (dv : List Nat) (rows : List PRow) (j : Nat)
     (hdv : ∀ i r, rows[i]? = some r → dv.contains (j + i) = r.deleted) :
